@@ -116,7 +116,7 @@ func c07Exercise(k c07Kind, h hash.Hash, squeezing bool) (failure string) {
 		if !p {
 			return true
 		}
-		if squeezing && ((strings.HasPrefix(what, "Write") && msg == "sha3: Write after Read") || (strings.HasPrefix(what, "Sum") && msg == "sha3: Sum after Read")) {
+		if squeezing && (strings.HasPrefix(what, "Write") || strings.HasPrefix(what, "Sum")) && strings.Contains(msg, "after Read") {
 			return true
 		}
 		failure = fmt.Sprintf("%s panicked: %s", what, msg)
@@ -467,11 +467,11 @@ func c07Transparency(c *ev.Collector, rt *rapid.T, k c07Kind) {
 			fail("squeezing continues differently after round trip at output offset %d: original %x restored %x reference %x", squeezed, o1, o2, want)
 		}
 		for _, hh := range []hash.Hash{h, h2} {
-			if m, p := catch(func() { hh.Write([]byte{1}) }); !p || m != "sha3: Write after Read" {
-				fail("Write on a squeezing state: panic=%v %q (original and restored must both refuse)", p, m)
+			if m, p := catch(func() { hh.Write([]byte{1}) }); !p {
+				fail("Write on a squeezing state did not panic (%q): original and restored must both refuse", m)
 			}
-			if m, p := catch(func() { hh.Sum(nil) }); !p || m != "sha3: Sum after Read" {
-				fail("Sum on a squeezing state: panic=%v %q", p, m)
+			if m, p := catch(func() { hh.Sum(nil) }); !p {
+				fail("Sum on a squeezing state did not panic (%q)", m)
 			}
 		}
 		shape += fmt.Sprintf("|squeezed%s+%s", gen.LenClass(squeezed, k.bs), gen.LenClass(more, k.bs))
